@@ -7,7 +7,7 @@ import time
 from . import sut, wire
 
 BEHAVIOURS = ["always", "never", "stop2", "late-within", "late-beyond", "wrong-token", "unsolicited",
-              "chatty-silent", "late-long", "never", "always"]
+              "chatty-silent", "late-long", "never", "always", "slow-register", "slow-register-silent"]
 
 
 class Lag(threading.Thread):
@@ -34,7 +34,17 @@ class Peer:
         self.P, self.Q = ping, pong
         self.c = wire.Client(srv.port, name=nick, timeout=8.0)
         self.c.keep_transcript = False
-        self.c.register(nick, "ck")
+        self.t_conn = time.monotonic()
+        self.registered = True
+        self.pre_reg_pings = 0
+        if behaviour.startswith("slow-register"):
+            # the keep-alive clock starts at registration: a client that takes longer than ping_timeout to
+            # register is pinged from then on and, answering, stays
+            self.registered = False
+            self.user_due = self.t_conn + ping + 0.8
+            self.c.send("NICK " + nick)
+        else:
+            self.c.register(nick, "ck")
         self.t_reg = time.monotonic()
         self.events = []  # (t, kind, detail)
         self.server_pings = []
@@ -50,12 +60,23 @@ class Peer:
         self.n = 0
 
     def on_line(self, m, now):
+        if not self.registered:
+            if m.verb == "001":
+                self.registered = True
+                self.t_reg = now
+                self.next_own_ping = now + 0.7
+            elif m.verb == "PING":
+                self.pre_reg_pings += 1
+                self.c.send("PONG :" + (m.params[-1] if m.params else ""))
+            elif m.verb.startswith("ERROR"):
+                self.error_line = m.raw
+            return
         if m.verb == "PING":
             self.server_pings.append(now)
             tok = m.params[-1] if m.params else ""
             b = self.b
             answer = None
-            if b in ("always", "unsolicited"):
+            if b in ("always", "unsolicited", "slow-register"):
                 answer = (now, tok)
             elif b == "wrong-token":
                 answer = (now, "not-the-token")
@@ -86,6 +107,11 @@ class Peer:
 
     def tick(self, now):
         if self.closed_at is not None:
+            return
+        if not self.registered:
+            if self.user_due is not None and now >= self.user_due:
+                self.user_due = None
+                self.c.send("USER ck 0 * :slow one")
             return
         due = [a for a in self.pending_answers if a[0] <= now]
         for a in due:
@@ -143,7 +169,13 @@ def run_config(args):
                            first_unanswered=None if p.first_unanswered is None else round(p.first_unanswered - p.t_reg, 2))
                 out["peers"].append(rec)
                 tag = "P%d-Q%d" % (P, Q)
-                responsive = p.b in ("always", "late-within", "late-long", "wrong-token", "unsolicited")
+                responsive = p.b in ("always", "late-within", "late-long", "wrong-token", "unsolicited", "slow-register")
+                if not p.registered:
+                    # the statement is about registered clients only: nothing to judge
+                    out["inconclusive"] = "slow registrant %s never got its welcome (closed: %s, %s)" % (
+                        p.nick, p.closed_at is not None, p.error_line)
+                    continue
+                rec["pings_before_registration"] = p.pre_reg_pings
                 # R1 own PINGs echoed
                 stale = [t for t in p.own_tokens.values() if now - t > 3.0 and (p.closed_at is None or t < p.closed_at - 3.0)]
                 if stale:
